@@ -44,3 +44,8 @@ Fixpoint ledger_lookup (c : string) (L : ledger) : list term :=
 Definition fx_case (ops : list fxop) (expected : list (string * list (Z * string))) : bool :=
   let L := fx_run ops in
   forallb (fun ce => zs_eqb (map term_text (ledger_lookup (fst ce) L)) (snd ce)) expected.
+
+(* ---- C09: identities that may need the residual of a cut equation as certificate ---- *)
+Definition zero_anycert_case (E : sys) (cut nz : list string) (fuel : nat)
+           (targets : list (list (list (expr Q * string)) * expr Q)) : bool :=
+  forallb (fun ct => existsb (fun cert => check_zero_cert E cut nz 1%nat fuel cert (snd ct)) (fst ct)) targets.
